@@ -360,6 +360,11 @@ def r9_setoption_sections(ctx):
     consume_name = [c for c in calls if c[1] == "consume" and c[2] == ["name"]]
     consume_value = [c for c in calls if c[1] == "consume" and c[2] == ["value"]]
     ok = len(consume_name) == 1 and len(consume_value) == 1 and cfg.dominates(consume_name[0][0], consume_value[0][0])
+    if not consume_name and not consume_value and not any(c[2] == ["name"] or c[2] == ["value"] for c in calls):
+        # the two keywords are not consumed through CommandParser::consume with a literal (renamed helper, a match on
+        # the token): not read here
+        ctx.lost(rid, "parse_setoption: the consume(\"name\") / consume(\"value\") calls")
+        return
     ctx.ob(rid, "keywords", ok, "" if ok else "parse_setoption does not consume `name` and then `value` (calls: %s)" % [(c[1], c[2]) for c in calls], ctx.where(f))
     if not ok:
         return
